@@ -8,7 +8,10 @@ replace google.golang.org/grpc => google.golang.org/grpc v1.26.0
 
 replace github.com/coreos/bbolt => go.etcd.io/bbolt v1.3.5
 
-require github.com/vicanso/pike v0.0.0-00010101000000-000000000000
+require (
+	github.com/vicanso/elton v1.4.2
+	github.com/vicanso/pike v0.0.0-00010101000000-000000000000
+)
 
 require (
 	github.com/DataDog/zstd v1.4.1 // indirect
@@ -48,7 +51,6 @@ require (
 	github.com/tidwall/pretty v1.1.0 // indirect
 	github.com/tklauser/go-sysconf v0.3.4 // indirect
 	github.com/tklauser/numcpus v0.2.1 // indirect
-	github.com/vicanso/elton v1.4.2 // indirect
 	github.com/vicanso/elton-jwt v1.2.1 // indirect
 	github.com/vicanso/hes v0.3.9 // indirect
 	github.com/vicanso/intranet-ip v0.0.1 // indirect
